@@ -667,9 +667,11 @@ def _split_opstr(optstr):
     import re
     stack = []
     split_pos = []
-    for match in re.finditer(r',|\(|\)', optstr):
+    # (like the standard doctest module, accept options that are separated
+    # by blanks only: '+SKIP +ELLIPSIS')
+    for match in re.finditer(r',|\(|\)|(?<![,\s])\s+(?=[+-])', optstr):
         token = match.group()
-        if token == ',' and not stack:
+        if (token == ',' or token.isspace()) and not stack:
             # Only split when there are no parens
             split_pos.append(match.start())
         elif token == '(':
